@@ -208,6 +208,18 @@ func ruleStartChunkEffects(c *Ctx, r *Report, t *chunkTables, prefix string) {
 				}
 				return "rawReader"
 			}
+			if newUR == fn {
+				// the constructor was folded into startChunk: r.ur = &uncompressedReader{lr: {R, N}, Dict}
+				if st, ok := storeToField(ins, fUr); ok {
+					if al, isA := stripConv(st.Val).(*ssa.Alloc); isA {
+						rv, nv, dv := urLiteral(al)
+						if rv == nil || nv == nil || dv == nil || !isFieldLoadOf(rv, fR) || !isFieldLoadOf(dv, fDict) || !isFieldLoadPlusConst(nv, fUnc, 1) {
+							argBad["newUncompressedReader"] = "the raw chunk reader must get the raw stream, the reader's dictionary and size = uncompressed+1"
+						}
+						return "rawReader"
+					}
+				}
+			}
 			if call, ok := callTo(ins, urReopen); ok {
 				a := call.Call.Args
 				if len(a) != 3 || !isFieldLoadOf(a[1], fR) || !isFieldLoadPlusConst(a[2], fUnc, 1) {
@@ -387,6 +399,19 @@ func ruleStartChunkEffects(c *Ctx, r *Report, t *chunkTables, prefix string) {
 		}
 		// the LimitedReader's N is the size parameter
 		ok := false
+		if f.Name() != "newUncompressedReader" && f.Name() != "Reopen" {
+			// folded into its caller (startChunk): the literal's N is checked there (SEQ-STARTCHUNK
+			// raw kinds: size = uncompressed+1); here: a literal with an N exists
+			for _, b := range theCtx.GB(f) {
+				for _, ins := range b.Instrs {
+					if al, isA := ins.(*ssa.Alloc); isA {
+						if _, nv, _ := urLiteral(al); nv != nil {
+							ok = true
+						}
+					}
+				}
+			}
+		}
 		for _, b := range theCtx.GB(f) {
 			for _, ins := range b.Instrs {
 				st, isSt := ins.(*ssa.Store)
@@ -946,4 +971,69 @@ func oneZeroByte(v ssa.Value) bool {
 		}
 	}
 	return true
+}
+
+// urLiteral: the values a composite literal &uncompressedReader{lr: io.LimitedReader{R: r, N: n}, Dict: d}
+// stores (nil where absent).
+func urLiteral(al *ssa.Alloc) (rv, nv, dv ssa.Value) {
+	pt, ok := al.Type().Underlying().(*types.Pointer)
+	if !ok {
+		return
+	}
+	if n, isN := pt.Elem().(*types.Named); !isN || n.Obj().Name() != "uncompressedReader" {
+		return
+	}
+	var scanLR func(base ssa.Value)
+	scanLR = func(base ssa.Value) {
+		for _, ref := range *base.Referrers() {
+			switch x := ref.(type) {
+			case *ssa.FieldAddr:
+				fv := fieldOfAddr(x)
+				if fv == nil {
+					continue
+				}
+				for _, r2 := range *x.Referrers() {
+					if st, isSt := r2.(*ssa.Store); isSt && st.Addr == x {
+						switch fv.Name() {
+						case "R":
+							rv = stripConv(st.Val)
+						case "N":
+							nv = st.Val
+						}
+					}
+				}
+			}
+		}
+	}
+	for _, ref := range *al.Referrers() {
+		fa, isFA := ref.(*ssa.FieldAddr)
+		if !isFA {
+			continue
+		}
+		fv := fieldOfAddr(fa)
+		if fv == nil {
+			continue
+		}
+		switch fv.Name() {
+		case "Dict":
+			for _, r2 := range *fa.Referrers() {
+				if st, isSt := r2.(*ssa.Store); isSt && st.Addr == fa {
+					dv = st.Val
+				}
+			}
+		case "lr":
+			scanLR(fa)
+			for _, r2 := range *fa.Referrers() {
+				if st, isSt := r2.(*ssa.Store); isSt && st.Addr == fa {
+					// *(&t.lr) = *tmp where tmp is the inner literal
+					if u, isU := st.Val.(*ssa.UnOp); isU && u.Op == token.MUL {
+						if tmp, isAl := u.X.(*ssa.Alloc); isAl {
+							scanLR(tmp)
+						}
+					}
+				}
+			}
+		}
+	}
+	return
 }
